@@ -14,7 +14,8 @@ def one(tw):
     root = selftest.make_scratch(Path("/repo"))
     try:
         try:
-            selftest.apply_edit(root, file, old, new)
+            for f, o, n in (old if file == "MULTI" else [(file, old, new)]):
+                selftest.apply_edit(root, f, o, n)
         except Exception as e:
             return name, [("APPLY", str(e)[:120])]
         bad = []
